@@ -243,7 +243,7 @@ std::string do_run(const std::string& rest) {
     g.orders.clear();
   }
   g.mode.store(c03::CTRL);
-  alarm(120);   // a replay that stops making progress without reaching a scheduling point
+  alarm(300);   // a replay that stops making progress without reaching a scheduling point
 
   c03::ThreadRec* r0 = new c03::ThreadRec();
   r0->id = 0;
@@ -333,7 +333,7 @@ std::string do_free(const std::string& rest) {
   c03::tl_rng = 0;
   c03::tl_free_id = 0;
   g.mode.store(c03::FREE);
-  alarm(60);
+  alarm(300);
   std::vector<std::string> toks;
   run_history(hist, d, &L, &toks);
   alarm(0);
